@@ -33,7 +33,39 @@ func runC19(c *Ctx) {
 		{"auth scheme", "authenticators", "RequiredSecuritySchemes"},
 		{"security definitions", "", "RequiredSecuritySchemes"},
 	}
-	vcs := callsIn(val, "(*rt/middleware/untyped.API).verify")
+	// the comparison helper: `verify`, or whatever function of that shape (.., name string, registrations, expectations
+	// []string) error validate calls for its categories after a rename
+	vf := p.lenientFn("(*rt/middleware/untyped.API).verify")
+	if f0 := p.FnOpt("(*rt/middleware/untyped.API).verify"); f0 != nil {
+		vf = f0
+	}
+	if vf == nil {
+		count := map[*ssa.Function]int{}
+		for _, ci := range allCallsShallow(val) {
+			sc := ci.Common().StaticCallee()
+			if sc == nil || sc.Blocks == nil || !isRepoPath(fnPkgPath(sc)) {
+				continue
+			}
+			ps := sc.Signature.Params()
+			if ps.Len() >= 3 && typeStr(ps.At(ps.Len()-1).Type()) == "[]string" && typeStr(ps.At(ps.Len()-2).Type()) == "[]string" && errorResultIndex(sc.Signature) >= 0 {
+				count[sc]++
+			}
+		}
+		for f, n := range count {
+			if n >= 2 && (vf == nil || n > count[vf]) {
+				vf = f
+			}
+		}
+	}
+	if vf == nil {
+		fatalf("anchor: the comparison helper of API.validate (verify) cannot be identified")
+	}
+	var vcs []ssa.CallInstruction
+	for _, ci := range allCallsShallow(val) {
+		if ci.Common().StaticCallee() == vf {
+			vcs = append(vcs, ci)
+		}
+	}
 	c.obF("R19.1", val, "five-comparisons", len(vcs) == 5, "validate compares five categories", fmt.Sprintf("%d verify calls", len(vcs)))
 	byName := map[string]*ssa.Call{}
 	for _, vc := range vcs {
@@ -123,8 +155,7 @@ func runC19(c *Ctx) {
 		c.obI("R19.1", r, "Validate-is-validate", ok, "Validate returns validate's verdict", "")
 	}
 	// verify
-	vf := p.Fn("(*rt/middleware/untyped.API).verify")
-	regs, exps := paramOf(vf, 1), paramOf(vf, 2)
+	regs, exps := vf.Params[len(vf.Params)-2], vf.Params[len(vf.Params)-1]
 	for _, s := range []struct {
 		x    *ssa.Parameter
 		what string
@@ -445,4 +476,15 @@ func runC19(c *Ctx) {
 	}
 	c.obF("R19.3", p.Fn("(*rt/middleware.Context).Respond"), "tabled-panic-sites", nPanic >= 3 && nPanic <= 5, "the tabled panic sites exist (missing producer, produce error)", fmt.Sprintf("%d request-reachable panics", nPanic))
 	c.obF("R19.3", p.Fn("(*rt/middleware.Context).BindValidRequest"), "tabled-consumer-miss-sites", n500 == 2, "exactly the two tabled consumer-miss sites exist", fmt.Sprintf("%d", n500))
+}
+
+// allCallsShallow lists the call instructions written in f itself (helpers are not looked through).
+func allCallsShallow(f *ssa.Function) []ssa.CallInstruction {
+	var out []ssa.CallInstruction
+	for _, in := range ownInstrs(f) {
+		if ci, ok := in.(ssa.CallInstruction); ok {
+			out = append(out, ci)
+		}
+	}
+	return out
 }
